@@ -13,9 +13,15 @@ int pick(double x);
 int stride(int num, int offset = 0, int step = 1);
 int window(int lo, const std::string &tag, bool closed = true, int step = 2);
 double blend(double a, double b, double w = 0.5);
+int ping(int n = 3);
+void reset();
+void reset(int v);
+int measure(int w);
+double measure(double w, double h);
 class Counter {
 public:
     Counter();
+    Counter(int start);
     ~Counter();
     int get() const;
     void bump(int by);
